@@ -16,12 +16,14 @@
 #include "xv_xml.hpp"
 
 #include <array>
+#include <sys/resource.h>
 #include <unordered_map>
 #include <xercesc/util/ParseException.hpp>
 #include <xercesc/util/RefArrayVectorOf.hpp>
 #include <xercesc/util/RuntimeException.hpp>
 #include <xercesc/util/regx/Match.hpp>
 #include <xercesc/util/regx/Op.hpp>
+#include <xercesc/util/regx/RangeToken.hpp>
 #include <xercesc/util/regx/RegularExpression.hpp>
 
 using namespace xv;
@@ -214,15 +216,15 @@ struct Deriv {
     enum { T_NONE, T_EPS, T_CLS, T_CAT, T_ALT, T_REP };
     struct Term { int k, a, b, n, m; bool nul; };
     std::vector<Term> t;
-    std::map<std::array<int, 5>, int> cons;
-    std::unordered_map<uint64_t, int> memo;
-    Deriv() { t.push_back({T_NONE, 0, 0, 0, 0, false}); t.push_back({T_EPS, 0, 0, 0, 0, true}); }
-    int mk(int k, int a, int b, int n, int m, bool nul) {
-        std::array<int, 5> key{k, a, b, n, m};
-        auto it = cons.find(key);
-        if (it != cons.end()) return it->second;
+    std::vector<int> memo;  // [term * NSYM + symbol] -> derivative term or -1
+    Deriv() { t.reserve(64); t.push_back({T_NONE, 0, 0, 0, 0, false}); t.push_back({T_EPS, 0, 0, 0, 0, true}); }
+    int mk(int k, int a, int b, int n, int m, bool nul) {  // hash-consing by linear search: a case has a few dozen terms
+        for (int i = (int)t.size() - 1; i >= 2; i--) {
+            const Term& x = t[i];
+            if (x.k == k && x.a == a && x.b == b && x.n == n && x.m == m) return i;
+        }
         t.push_back({k, a, b, n, m, nul});
-        return cons[key] = (int)t.size() - 1;
+        return (int)t.size() - 1;
     }
     int cls(int mask) { return mk(T_CLS, mask, 0, 0, 0, false); }
     int cat(int a, int b) {
@@ -247,9 +249,8 @@ struct Deriv {
     }
     int d(int x, int s) {
         if (x <= 1) return 0;
-        uint64_t key = ((uint64_t)x << 8) | (unsigned)s;
-        auto it = memo.find(key);
-        if (it != memo.end()) return it->second;
+        size_t key = (size_t)x * NSYM + (size_t)s;
+        if (key < memo.size() && memo[key] >= 0) return memo[key];
         Term T = t[x];
         int r = 0;
         switch (T.k) {
@@ -258,6 +259,7 @@ struct Deriv {
         case T_ALT: r = alt(d(T.a, s), d(T.b, s)); break;
         case T_REP: r = cat(d(T.a, s), rep(T.a, T.n > 0 ? T.n - 1 : 0, T.m < 0 ? -1 : T.m - 1)); break;
         }
+        if (memo.size() < t.size() * NSYM) memo.resize(t.size() * NSYM + 16 * NSYM, -1);
         memo[key] = r;
         return r;
     }
@@ -285,12 +287,19 @@ struct PosEval {
     const std::vector<uint8_t>* w = nullptr;
     Sem o;
     int n = 0;
-    std::unordered_map<uint32_t, uint32_t> memo;
-    void set(const std::vector<uint8_t>& word, const Sem& sem) { w = &word; o = sem; n = (int)word.size(); memo.clear(); }
+    enum { MAXN = 24, MAXP = 34 };
+    int ids[MAXN]; int nids = 0;
+    uint32_t val[MAXN][MAXP]; bool has[MAXN][MAXP];
+    void set(const std::vector<uint8_t>& word, const Sem& sem) { w = &word; o = sem; n = (int)word.size(); nids = 0; }
+    int local(int t) {
+        for (int k = 0; k < nids; k++) if (ids[k] == t) return k;
+        if (nids >= MAXN) { fprintf(stderr, "PosEval: too many nodes\n"); abort(); }
+        ids[nids] = t; memset(has[nids], 0, sizeof has[nids]);
+        return nids++;
+    }
     uint32_t ends(int t, int i) {
-        uint32_t key = ((uint32_t)t << 5) | (uint32_t)i;
-        auto it = memo.find(key);
-        if (it != memo.end()) return it->second;
+        int lt = local(t);
+        if (has[lt][i]) return val[lt][i];
         const Node& nd = POOL[t];
         uint32_t r = 0;
         switch (nd.op) {
@@ -319,7 +328,7 @@ struct PosEval {
             break;
         }
         }
-        memo[key] = r;
+        val[lt][i] = r; has[lt][i] = true;
         return r;
     }
 };
@@ -332,6 +341,7 @@ struct RE : public RegularExpression {  // subclass only to *observe* protected 
     bool firstChar() const { return fFirstChar != 0; }
     const Op* ops() const { return fOperations; }
     int groups() const { return fNoGroups; }
+    bool firstCharHas(XMLInt32 ch) const { return fFirstChar && fFirstChar->match(ch); }
     // what the matcher core returns for an attempt at `start` (end offset or -1); used only to *classify* mismatches
     int rawMatch(const U16& s, XMLSize_t start) const {
         Context ctx(XMLPlatformUtils::fgMemoryManager);
@@ -419,6 +429,13 @@ static const KnownDefect KNOWN_DEFECTS[] = {
      "XML Schema mode: matches() runs match() once from the start and compares the end of the first (priority-order) match with the end of the "
      "string; nothing forces backtracking into shorter/longer alternatives, so strings of the language are rejected whenever the "
      "greedy-first path stops at a proper prefix that is itself in the language"},
+    {"headchar-set-too-small", ".{1}a", "", "ba", true, -2, -2,
+     "Token::analyzeFirstCharacter: a closure with min >= 1 (and a union) drops the FC_ANY answer of a '.' child, so the first-character set "
+     "of e.g. .{1}a is {a}; matches() then skips every start position whose character is not in that set (found with option H)"},
+    {"closure-infinite-recursion", "(a*)*b", "X", "a", false, -2, -2,
+     "an unbounded closure whose body is nullable and itself contains an unbounded closure, followed by more pattern: the inner re-entry of the "
+     "outer O_CLOSURE resets Context::fOffsets[id] to -1, which defeats the empty-iteration guard; match() recurses until the stack is exhausted "
+     "(process crash) - e.g. xs:pattern (a*)*b validating the value 'a'"},
     {"fixedstring-match-end", "a{1}", "", "a", true, 0, 1,
      "fixed-string-only shortcut of matches(): the end of group 0 is computed as start + length of the *pattern source* (fPattern) instead of the "
      "length of the fixed string, so Match::getEndPos(0) is wrong (even beyond the subject) for a{1}, escaped literals and the x option"},
@@ -454,6 +471,15 @@ static const char* classify_known(bool xpath, const std::string& opts, const RE*
         for (int s = 0; s <= n; s++)
             if (P.ends(root, s)) { any = true; if (s >= n || word[s] != S_U) all_supp = false; }
         if (any && all_supp) return "headchar-surrogate";
+    }
+    if (xpath && !has_opt(opts, 'H') && re->firstChar() && !has_opt(opts, 'i') && expected && !observed) {
+        // headchar-set-too-small: every true match start is a character that the computed first-character set does not contain
+        static const XMLInt32 CP[NSYM] = {'a', 'b', 'c', 'B', '1', ' ', 0x10000, '\n', 'A'};
+        PosEval P; P.set(word, sem);
+        bool all_filtered = true, any = false;
+        for (int s = 0; s <= n; s++)
+            if (P.ends(root, s)) { any = true; if (s < n && re->firstCharHas(CP[word[s]])) all_filtered = false; }
+        if (any && all_filtered) return "headchar-set-too-small";
     }
     if (xpath && expected && !observed && dotstar_prefix(re) && !sem.dotall && all_starts_on_empty_line(root, word, sem, false)) return "dotstar-skips-empty-line";
     if (!xpath && expected && !observed) {
@@ -534,6 +560,91 @@ static void deriv_verdicts(Ctx& c, int root, const Sem& sem, std::vector<uint8_t
 }
 
 // =========================================================================================== space: ast
+// ---- guarded execution.  Some small, valid expressions send RegularExpression::match() into unbounded recursion (KNOWN_DEFECTS
+// "closure-infinite-recursion").  A worker that dies loses its counters, so ASTs for which that is structurally possible (an unbounded
+// quantifier over a nullable body) run their matches() calls in a forked child that reports verdict bytes through shared memory; a dying
+// child pins the (options, string) it was executing.  Everything else runs in-process.
+enum { V_COMPILE_FAILED = -8, V_CRASH = -7, V_NOT_RUN = -9 };
+static bool nullable_ast(int t) {
+    const Node& n = POOL[t];
+    switch (n.op) {
+    case N_ATOM: return ATOMS[n.arg].kind != K_CLASS;
+    case N_GROUP: return nullable_ast(n.l);
+    case N_QUANT: return QUANTS[n.arg].n == 0 || nullable_ast(n.l);
+    case N_CONCAT: return nullable_ast(n.l) && nullable_ast(n.r);
+    default: return nullable_ast(n.l) || nullable_ast(n.r);
+    }
+}
+static bool risky_ast(int t) {
+    const Node& n = POOL[t];
+    if (n.op == N_ATOM) return false;
+    if (n.op == N_QUANT && QUANTS[n.arg].m < 0 && nullable_ast(n.l)) return true;
+    return risky_ast(n.l) || (n.r >= 0 && risky_ast(n.r));
+}
+// unbounded quantifier whose body contains another unbounded quantifier and is nullable: the shape on which the recursion was observed
+static bool has_unbounded(int t) {
+    const Node& n = POOL[t];
+    if (n.op == N_ATOM) return false;
+    if (n.op == N_QUANT && QUANTS[n.arg].m < 0) return true;
+    return has_unbounded(n.l) || (n.r >= 0 && has_unbounded(n.r));
+}
+static bool nested_unbounded_nullable(int t) {
+    const Node& n = POOL[t];
+    if (n.op == N_ATOM) return false;
+    if (n.op == N_QUANT && QUANTS[n.arg].m < 0 && nullable_ast(n.l) && has_unbounded(n.l)) return true;
+    return nested_unbounded_nullable(n.l) || (n.r >= 0 && nested_unbounded_nullable(n.r));
+}
+struct Shm { volatile int32_t opt, str; int8_t v[1]; };
+static Shm* g_shm = nullptr; static size_t g_shm_size = 0;
+static void exec_matches(const U16& pat, const std::vector<std::string>& opts, size_t from, size_t NS, int8_t* v, volatile int32_t* cur_opt, volatile int32_t* cur_str) {
+    for (size_t oi = from; oi < opts.size(); oi++) {
+        Compiled C;
+        compile(C, pat, opts[oi].c_str());
+        if (C.exc != EX_NONE) { memset(v + oi * NS, V_COMPILE_FAILED, NS); continue; }
+        for (size_t i = 0; i < NS; i++) {
+            *cur_opt = (int32_t)oi; *cur_str = (int32_t)i;
+            v[oi * NS + i] = (int8_t)xmatch(C.re, STR.s[i], nullptr, nullptr);
+        }
+    }
+}
+static void on_child_segv(int) { _exit(77); }
+static void exec_matches_guarded(Ctx& c, const U16& pat, const std::vector<std::string>& opts, size_t NS, std::vector<int8_t>& out) {
+    size_t need = sizeof(Shm) + opts.size() * NS;
+    if (!g_shm || g_shm_size < need) {
+        if (g_shm) munmap((void*)g_shm, g_shm_size);
+        g_shm_size = need;
+        g_shm = (Shm*)mmap(nullptr, g_shm_size, PROT_READ | PROT_WRITE, MAP_SHARED | MAP_ANONYMOUS, -1, 0);
+    }
+    memset((void*)g_shm->v, V_NOT_RUN, opts.size() * NS);
+    size_t from = 0;
+    while (from < opts.size()) {
+        g_shm->opt = (int32_t)from; g_shm->str = -1;
+        fflush(nullptr);
+        pid_t p = fork();
+        if (p == 0) {
+            // die fast and silently on stack exhaustion: small stack limit, own SIGSEGV handler on an alternate stack
+            static char altstack[1 << 16];
+            stack_t ss; ss.ss_sp = altstack; ss.ss_size = sizeof altstack; ss.ss_flags = 0; sigaltstack(&ss, nullptr);
+            struct sigaction sa; memset(&sa, 0, sizeof sa); sa.sa_handler = on_child_segv; sa.sa_flags = SA_ONSTACK; sigaction(SIGSEGV, &sa, nullptr); sigaction(SIGBUS, &sa, nullptr);
+            struct rlimit rl; rl.rlim_cur = rl.rlim_max = 1 << 20; setrlimit(RLIMIT_STACK, &rl);
+            struct itimerval it; memset(&it, 0, sizeof it); setitimer(ITIMER_REAL, &it, nullptr);
+            signal(SIGALRM, SIG_DFL); alarm(30);
+            exec_matches(pat, opts, from, NS, (int8_t*)g_shm->v, &g_shm->opt, &g_shm->str);
+            _exit(0);
+        }
+        int st = 0;
+        while (waitpid(p, &st, 0) < 0 && errno == EINTR) {}
+        c.count("guarded:child_processes");
+        if (WIFEXITED(st) && WEXITSTATUS(st) == 0) break;
+        int oi = g_shm->opt, si = g_shm->str;
+        if (si < 0) { memset((void*)(g_shm->v + (size_t)oi * NS), V_CRASH, NS); }  // died while compiling
+        else g_shm->v[(size_t)oi * NS + si] = V_CRASH;
+        c.count(WIFSIGNALED(st) && WTERMSIG(st) == SIGALRM ? "guarded:child_timeouts" : "guarded:child_crashes");
+        from = (size_t)oi + 1;
+    }
+    out.assign((int8_t*)g_shm->v, (int8_t*)g_shm->v + opts.size() * NS);
+}
+
 static void run_ast(uint64_t idx, Ctx& c) {
     int root = (int)idx;
     U16 pat = render(root);
@@ -560,59 +671,83 @@ static void run_ast(uint64_t idx, Ctx& c) {
     if (g_modes & 1) { c.count("ref_accept_anchored", accX); c.count("ref_reject_anchored", NS - accX); if (accX > 0 && accX < NS) c.count("ast_nontrivial_anchored"); }
     if (g_modes & 2) { c.count("ref_accept_search", accS); c.count("ref_reject_search", NS - accS); if (accS > 0 && accS < NS) c.count("ast_nontrivial_search"); }
 
+    // ---- execute on the library
+    std::vector<std::string> allopts; std::vector<int> modeOf;
+    for (int mode = 0; mode < 2; mode++)
+        if (g_modes >> mode & 1) for (auto& o : (mode == 0 ? g_xopts : g_popts)) { allopts.push_back(o); modeOf.push_back(mode); }
+    std::vector<int8_t> V(allopts.size() * NS, V_NOT_RUN);
+    bool guarded = risky_ast(root);
+    if (guarded) { c.count("guarded:asts"); exec_matches_guarded(c, pat, allopts, NS, V); }
+    else { volatile int32_t a = 0, b = 0; exec_matches(pat, allopts, 0, NS, V.data(), &a, &b); }
+
+    // ---- compare
     for (int mode = 0; mode < 2; mode++) {
         if (!(g_modes >> mode & 1)) continue;
-        const std::vector<std::string>& opts = mode == 0 ? g_xopts : g_popts;
         const std::vector<uint8_t>& ref = mode == 0 ? refX : refS;
         const std::string mname = mode == 0 ? "xsd" : "xpath";
-        std::vector<std::vector<int8_t>> got(opts.size(), std::vector<int8_t>(NS));
-        bool compiled_all = true;
-        for (size_t oi = 0; oi < opts.size(); oi++) {
+        std::vector<size_t> ois;
+        for (size_t k = 0; k < allopts.size(); k++) if (modeOf[k] == mode) ois.push_back(k);
+        bool comparable = true;
+        for (size_t q = 0; q < ois.size(); q++) {
+            size_t oi = ois[q];
+            int8_t* got = V.data() + oi * NS;
+            const std::string& opts = allopts[oi];
             Compiled C;
-            compile(C, pat, opts[oi].c_str());
+            compile(C, pat, opts.c_str());
             if (C.exc != EX_NONE) {
-                c.violation("valid-pattern-rejected-" + mname, ast_json(root) + ",\"options\":" + jstr(opts[oi]) + ",\"exception\":" + jstr(EXNAME[C.exc]) + ",\"detail\":" + jstr(C.detail));
-                compiled_all = false;
+                c.violation("valid-pattern-rejected-" + mname, ast_json(root) + ",\"options\":" + jstr(opts) + ",\"exception\":" + jstr(EXNAME[C.exc]) + ",\"detail\":" + jstr(C.detail));
+                comparable = false;
                 continue;
             }
             c.count(mname + ":compiled");
-            if (oi == 0) count_compiled(c, C.re, mname);
+            if (q == 0) count_compiled(c, C.re, mname);
             else {
-                if (C.re->bmPrefilter()) c.count(mname + ":opt_" + opts[oi] + ":bm_prefilter");
-                if (C.re->firstChar()) c.count(mname + ":opt_" + opts[oi] + ":first_char_set");
+                if (C.re->bmPrefilter()) c.count(mname + ":opt_" + opts + ":bm_prefilter");
+                if (C.re->firstChar()) c.count(mname + ":opt_" + opts + ":first_char_set");
             }
-            size_t bad = 0, firstbad = 0; std::string det;
+            size_t bad = 0, firstbad = 0, ran = 0;
             for (size_t i = 0; i < NS; i++) {
-                int v = xmatch(C.re, STR.s[i], nullptr, &det);
-                got[oi][i] = (int8_t)v;
+                int v = got[i];
+                if (v == V_NOT_RUN) { c.count(mname + ":not_run_after_crash"); comparable = false; continue; }
+                ran++;
+                if (v == V_CRASH) {
+                    comparable = false;
+                    if (nested_unbounded_nullable(root)) c.count("known_defect:closure-infinite-recursion");
+                    else c.violation("match-crash-" + mname, ast_json(root) + ",\"options\":" + jstr(opts) + ",\"string\":" + jstr(a16(STR.s[i])));
+                    continue;
+                }
                 if (v < 0) {
-                    c.violation("match-exception-" + mname, ast_json(root) + ",\"options\":" + jstr(opts[oi]) + ",\"string\":" + jstr(a16(STR.s[i])) + ",\"detail\":" + jstr(det));
-                    break;
+                    std::string det; xmatch(C.re, STR.s[i], nullptr, &det);
+                    c.violation("match-exception-" + mname, ast_json(root) + ",\"options\":" + jstr(opts) + ",\"string\":" + jstr(a16(STR.s[i])) + ",\"detail\":" + jstr(det));
+                    comparable = false;
+                    continue;
                 }
                 if (v != ref[i]) {
-                    if (explained(c, mode == 1, opts[oi], C.re, root, STR, i, sem, ref[i], v)) { got[oi][i] = (int8_t)ref[i]; continue; }
+                    if (explained(c, mode == 1, opts, C.re, root, STR, i, sem, ref[i], v)) { got[i] = (int8_t)ref[i]; continue; }
                     if (!bad) firstbad = i;
                     bad++;
                 }
             }
-            c.count(mname + ":matches_calls", NS);
+            c.count(mname + ":matches_calls", ran);
             if (bad) {
                 c.count(mname + ":mismatching_pairs", bad);
-                bool same_as_base = oi > 0 && got[oi] == got[0];
+                bool same_as_base = q > 0 && memcmp(got, V.data() + ois[0] * NS, NS) == 0;
                 if (!same_as_base)  // report once per distinct behaviour; pure option dependence is reported below
-                    c.violation("verdict-" + mname, ast_json(root) + ",\"options\":" + jstr(opts[oi]) + ",\"string\":" + jstr(a16(STR.s[firstbad])) + ",\"expected\":" +
-                                                        (ref[firstbad] ? "true" : "false") + ",\"observed\":" + (got[oi][firstbad] ? "true" : "false") +
+                    c.violation("verdict-" + mname, ast_json(root) + ",\"options\":" + jstr(opts) + ",\"string\":" + jstr(a16(STR.s[firstbad])) + ",\"expected\":" +
+                                                        (ref[firstbad] ? "true" : "false") + ",\"observed\":" + (got[firstbad] ? "true" : "false") +
                                                         ",\"mismatching_strings\":" + std::to_string(bad) + ",\"strings\":" + std::to_string(NS));
             }
         }
-        if (compiled_all)
-            for (size_t oi = 1; oi < opts.size(); oi++)
-                if (got[oi] != got[0]) {
+        if (comparable)
+            for (size_t q = 1; q < ois.size(); q++) {
+                const int8_t *g0 = V.data() + ois[0] * NS, *g = V.data() + ois[q] * NS;
+                if (memcmp(g0, g, NS) != 0) {
                     size_t i = 0;
-                    while (got[oi][i] == got[0][i]) i++;
-                    c.violation("option-dependence-" + mname, ast_json(root) + ",\"options\":" + jstr(opts[oi]) + ",\"base_options\":" + jstr(opts[0]) + ",\"string\":" +
-                                                                  jstr(a16(STR.s[i])) + ",\"with_base\":" + std::to_string(got[0][i]) + ",\"with_options\":" + std::to_string(got[oi][i]));
+                    while (g[i] == g0[i]) i++;
+                    c.violation("option-dependence-" + mname, ast_json(root) + ",\"options\":" + jstr(allopts[ois[q]]) + ",\"base_options\":" + jstr(allopts[ois[0]]) + ",\"string\":" +
+                                                                  jstr(a16(STR.s[i])) + ",\"with_base\":" + std::to_string(g0[i]) + ",\"with_options\":" + std::to_string(g[i]));
                 }
+            }
     }
     if (idx % 997 == 0) c.sample("{" + ast_json(root) + "}");
     if (c.verbose) {
@@ -1026,22 +1161,55 @@ static void run_malformed(uint64_t idx, Ctx& c) {
 // =========================================================================================== space: known (strict witnesses of KNOWN_DEFECTS)
 static void run_known(uint64_t idx, Ctx& c) {
     const KnownDefect& k = KNOWN_DEFECTS[idx];
-    Compiled C;
-    compile(C, cat16(k.pattern), k.options);
     std::string desc = "\"defect\":" + jstr(k.name) + ",\"pattern\":" + jstr(a16(cat16(k.pattern))) + ",\"options\":" + jstr(k.options) + ",\"string\":" + jstr(a16(cat16(k.string))) +
                        ",\"expected\":" + (k.expected ? "true" : "false") + (k.es >= -1 ? ",\"expected_group0\":[" + std::to_string(k.es) + "," + std::to_string(k.ee) + "]" : "") +
                        ",\"what\":" + jstr(k.what);
-    if (C.exc != EX_NONE) { c.violation(std::string("known-defect:") + k.name, desc + ",\"observed\":" + jstr(EXNAME[C.exc])); return; }
-    std::string det;
-    Match m;
-    int v = xmatch(C.re, cat16(k.string), &m, &det);
-    bool bad = v != (k.expected ? 1 : 0);
-    std::string obs = v == 1 ? "true" : v == 0 ? "false" : jstr(det);
-    if (!bad && v == 1 && k.es >= -1 && (m.getStartPos(0) != k.es || m.getEndPos(0) != k.ee)) {
-        bad = true;
-        obs += ",\"observed_group0\":[" + std::to_string(m.getStartPos(0)) + "," + std::to_string(m.getEndPos(0)) + "]";
+    // the witness runs in a forked child (one of the defects is a crash); the child reports {exc, verdict, start0, end0} through a pipe
+    int fds[2];
+    if (pipe(fds) != 0) { c.violation("harness-pipe", desc); return; }
+    fflush(nullptr);
+    pid_t p = fork();
+    if (p == 0) {
+        close(fds[0]);
+        static char altstack[1 << 16];
+        stack_t ss; ss.ss_sp = altstack; ss.ss_size = sizeof altstack; ss.ss_flags = 0; sigaltstack(&ss, nullptr);
+        struct sigaction sa; memset(&sa, 0, sizeof sa); sa.sa_handler = on_child_segv; sa.sa_flags = SA_ONSTACK; sigaction(SIGSEGV, &sa, nullptr); sigaction(SIGBUS, &sa, nullptr);
+        struct rlimit rl; rl.rlim_cur = rl.rlim_max = 1 << 20; setrlimit(RLIMIT_STACK, &rl);
+        struct itimerval it; memset(&it, 0, sizeof it); setitimer(ITIMER_REAL, &it, nullptr);
+        signal(SIGALRM, SIG_DFL); alarm(30);
+        int out[4] = {0, -1, -1, -1};
+        Compiled C;
+        compile(C, cat16(k.pattern), k.options);
+        out[0] = C.exc;
+        if (C.re) {
+            Match m;
+            out[1] = xmatch(C.re, cat16(k.string), &m, nullptr);
+            if (out[1] == 1) { out[2] = m.getStartPos(0); out[3] = m.getEndPos(0); }
+        }
+        if (write(fds[1], out, sizeof out) != (ssize_t)sizeof out) _exit(3);
+        _exit(0);
     }
-    if (bad) { c.count("known:still_present"); c.violation(std::string("known-defect:") + k.name, desc + ",\"observed\":" + obs); }
+    close(fds[1]);
+    int out[4] = {0, -1, -1, -1};
+    ssize_t got = read(fds[0], out, sizeof out);
+    close(fds[0]);
+    int st = 0;
+    while (waitpid(p, &st, 0) < 0 && errno == EINTR) {}
+    std::string kind = std::string("known-defect:") + k.name;
+    if (!(WIFEXITED(st) && WEXITSTATUS(st) == 0) || got != (ssize_t)sizeof out) {
+        c.count("known:still_present");
+        c.violation(kind, desc + ",\"observed\":" + jstr(WIFSIGNALED(st) ? "killed by signal " + std::to_string(WTERMSIG(st)) : WEXITSTATUS(st) == 77 ? "stack exhausted (SIGSEGV) inside matches()" : "abnormal exit " + std::to_string(WEXITSTATUS(st))));
+        return;
+    }
+    if (out[0] != EX_NONE) { c.count("known:still_present"); c.violation(kind, desc + ",\"observed\":" + jstr(EXNAME[out[0]])); return; }
+    int v = out[1];
+    bool bad = v != (k.expected ? 1 : 0);
+    std::string obs = v == 1 ? "true" : v == 0 ? "false" : "\"exception\"";
+    if (!bad && v == 1 && k.es >= -1 && (out[2] != k.es || out[3] != k.ee)) {
+        bad = true;
+        obs += ",\"observed_group0\":[" + std::to_string(out[2]) + "," + std::to_string(out[3]) + "]";
+    }
+    if (bad) { c.count("known:still_present"); c.violation(kind, desc + ",\"observed\":" + obs); }
     else c.count("known:no_longer_reproduces");
 }
 
